@@ -1,12 +1,15 @@
 //! C16 store layer: drive rsdd::util::lru::Lru directly with explicit (colliding) hashes.
 //! case:  <cap> (i <k> <v> <h> | g <k> <h>)*
 //! out:   (N | <v>)* util=<occupied/len reduced>
-use crate::props::{never, Prop};
-use crate::util::*;
+use rsdd_verif_harness::*;
 use rsdd::util::lru::Lru;
 use std::collections::HashMap;
 
 pub const PROP: Prop = Prop { gen, run, panic_ok: never };
+
+fn main() {
+    run_main(PROP)
+}
 
 pub fn gen(rng: &mut Rng, idx: usize, n: usize, thorough: bool) -> String {
     // sizes grow with the index so that the first failing case tends to be small
